@@ -1,12 +1,14 @@
 package kit
 
 import (
+	"fmt"
 	"go/ast"
 	"go/token"
 	"go/types"
 	"os"
 	"reflect"
 	"strconv"
+	"strings"
 )
 
 // RSummary is what callers may assume about the reflect-typed results of a
@@ -21,6 +23,39 @@ type RSummaries struct {
 	P    *Prog
 	memo map[*Func]*RSummary
 	busy map[*Func]bool
+	rec  map[*Func]bool
+}
+
+// Recursive reports whether f can reach itself through calls inside its package.
+func (rs *RSummaries) Recursive(f *Func) bool {
+	if rs.rec == nil {
+		rs.rec = map[*Func]bool{}
+	}
+	if v, ok := rs.rec[f]; ok {
+		return v
+	}
+	seen := map[*Func]bool{}
+	var visit func(g *Func) bool
+	visit = func(g *Func) bool {
+		for _, call := range g.AllCalls(true) {
+			h := g.CalleeFunc(call)
+			if h == nil || h.Pkg != f.Pkg {
+				continue
+			}
+			if h == f {
+				return true
+			}
+			if !seen[h] {
+				seen[h] = true
+				if visit(h) {
+					return true
+				}
+			}
+		}
+		return false
+	}
+	rs.rec[f] = visit(f)
+	return rs.rec[f]
 }
 
 // NewRSummaries returns an empty summary table.
@@ -151,18 +186,207 @@ type rSV struct {
 func (ri *RInterp) Client() Client {
 	ri.prepare()
 	return Client{
-		Node:      func(n ast.Node, s S) []S { return []S{ri.node(n, s)} },
+		Node:      ri.node,
 		Cond:      ri.cond,
 		Other:     ri.other,
 		MaxStates: 400000,
 	}
 }
 
-func (ri *RInterp) execAll(n ast.Node, s S, ents map[ast.Expr]string) S {
+// rState is a state together with the entities named while executing the
+// calls of the current node.
+type rState struct {
+	s    S
+	ents map[ast.Expr]string
+}
+
+// execAll executes the calls of n in evaluation order.  Calls of unexported,
+// non-recursive functions of the same package are interpreted in place, so
+// that what the caller established (kind sets, bounds, validity) holds inside
+// the helper and what the helper establishes holds after the call.
+func (ri *RInterp) execAll(n ast.Node, s S, ents map[ast.Expr]string) []rState {
+	states := []rState{{s, ents}}
 	for _, c := range CallsIn(n) {
-		s = ri.exec(c, s, ents)
+		var next []rState
+		for _, st := range states {
+			if callee := ri.inlinable(c); callee != nil {
+				rs := ri.inline(c, callee, st.s, st.ents)
+				for i, r := range rs {
+					e := st.ents
+					if i > 0 {
+						e = make(map[ast.Expr]string, len(st.ents))
+						for k, v := range st.ents {
+							e[k] = v
+						}
+					}
+					next = append(next, rState{r, e})
+				}
+				continue
+			}
+			next = append(next, rState{ri.exec(c, st.s, st.ents), st.ents})
+		}
+		states = next
 	}
-	return s
+	return states
+}
+
+// inlinable returns the callee when the call is interpreted in place.
+func (ri *RInterp) inlinable(call *ast.CallExpr) *Func {
+	if ri.NoInline {
+		return nil
+	}
+	callee := ri.F.CalleeFunc(call)
+	if callee == nil || callee.Decl == nil || callee.Body == nil || callee.Pkg != ri.F.Pkg || ast.IsExported(callee.Decl.Name.Name) {
+		return nil
+	}
+	if ri.depth >= 5 || callee == ri.F {
+		return nil
+	}
+	for _, f := range ri.stack {
+		if f == callee {
+			return nil
+		}
+	}
+	if ri.Sums != nil && ri.Sums.Recursive(callee) {
+		return nil
+	}
+	sig, ok := callee.Obj.Type().(*types.Signature)
+	if !ok || sig.Variadic() || sig.Params().Len() != len(call.Args) || call.Ellipsis.IsValid() {
+		return nil
+	}
+	return callee
+}
+
+// inline interprets callee for this call and returns the caller states after it.
+func (ri *RInterp) inline(call *ast.CallExpr, callee *Func, s S, ents map[ast.Expr]string) []S {
+	info := ri.info()
+	sub := &RInterp{F: callee, OnEvent: ri.OnEvent, Sums: ri.Sums, depth: ri.depth + 1, root: ri.rootI()}
+	sub.stack = append(append([]*Func{}, ri.stack...), ri.F)
+	sub.prepare()
+	// reflect.Values handed over are judged inside the callee
+	if ri.OnEvent != nil {
+		for _, a := range call.Args {
+			if RType(info.TypeOf(a)) == "Value" {
+				ri.OnEvent(&REvent{I: ri, S: s, ents: ents, Call: call, Name: "arg", Recv: ri.entOf(a, s, ents), Callee: callee, Arg: a, Inlined: true})
+			}
+		}
+	}
+	init := s
+	bindParam := func(p *types.Var, arg ast.Expr) {
+		if p == nil || p.Name() == "_" || p.Name() == "" {
+			return
+		}
+		id := VarID(p)
+		switch {
+		case RType(p.Type()) != "":
+			ent := ri.entOf(arg, s, ents)
+			if cl, ok := ast.Unparen(arg).(*ast.CompositeLit); ok && len(cl.Elts) == 0 && RType(p.Type()) == "Value" {
+				ent = "zv@" + ri.at(cl)
+			}
+			init = init.Set("b:"+id, ent)
+		case rIsInt(p.Type()):
+			init = sub.store(init, id, ri.bounds(arg, s, ents))
+		default:
+			if bt, ok := p.Type().Underlying().(*types.Basic); ok && bt.Info()&types.IsBoolean != 0 {
+				if v := ri.localVar(arg); v != nil && s.Get("bv:"+VarID(v)) != "" {
+					init = init.Set("bv:"+id, s.Get("bv:"+VarID(v)))
+				}
+				return
+			}
+			if v := ri.localVar(arg); v != nil {
+				if ae := s.Get("ae:" + VarID(v)); ae == "T" {
+					init = init.Set("ae:"+id, "T")
+				}
+			}
+			// facts about fields of a struct value travel with it
+			if at := ri.term(arg); at != "" {
+				for _, k := range s.Keys() {
+					for _, tag := range []string{"lb:", "ub:", "rl:", "rc:"} {
+						if strings.HasPrefix(k, tag+at+".") {
+							init = init.Set(tag+id+k[len(tag+at):], s.Get(k))
+						}
+					}
+				}
+			}
+		}
+	}
+	params := callee.Params()
+	for i, p := range params {
+		if i < len(call.Args) {
+			bindParam(p, call.Args[i])
+		}
+	}
+	if callee.Decl.Recv != nil && len(callee.Decl.Recv.List) == 1 && len(callee.Decl.Recv.List[0].Names) == 1 {
+		if sel, ok := ast.Unparen(call.Fun).(*ast.SelectorExpr); ok {
+			if rv, ok := callee.Info().Defs[callee.Decl.Recv.List[0].Names[0]].(*types.Var); ok {
+				bindParam(rv, sel.X)
+			}
+		}
+	}
+	if callee.Type.Results != nil {
+		for _, fl := range callee.Type.Results.List {
+			for _, nm := range fl.Names {
+				if v, ok := callee.Info().Defs[nm].(*types.Var); ok && RType(v.Type()) != "" {
+					init = init.Set("b:"+VarID(v), "z:"+VarID(v))
+				}
+			}
+		}
+	}
+	res := callee.Prog.Graph(callee).Run(init, sub.Client())
+	if res.Overflow {
+		ri.rootI().Overflowed = true
+		return nil
+	}
+	pos := ri.at(call)
+	lo, hi := int(callee.Node().Pos()), int(callee.Node().End())
+	isLocal := func(id string) bool {
+		// VarID = name@pos
+		if j := strings.LastIndexByte(id, '@'); j >= 0 {
+			num := id[j+1:]
+			if k := strings.IndexAny(num, ".|["); k >= 0 {
+				num = num[:k]
+			}
+			if p, err := strconv.Atoi(num); err == nil {
+				return p >= lo && p <= hi
+			}
+		}
+		return false
+	}
+	pre := fmt.Sprintf("rv%d#", sub.depth)
+	var out []S
+	seen := map[string]bool{}
+	for _, e := range res.Exits {
+		if e.Return == nil {
+			continue // panic / no-return call: nothing comes back
+		}
+		st := e.State
+		// results
+		for _, k := range st.Keys() {
+			switch {
+			case strings.HasPrefix(k, pre):
+				st = st.Set("re:"+pos+"#"+k[len(pre):], st.Get(k)).Del(k)
+			default:
+				for _, tag := range []string{"lb:", "ub:", "rl:", "rc:", "rg:"} {
+					if strings.HasPrefix(k, tag+pre) {
+						st = st.Set(tag+"ret@"+pos+"#"+k[len(tag+pre):], st.Get(k)).Del(k)
+					}
+				}
+			}
+		}
+		// forget the callee's locals
+		st = rFilterKeys(st, func(tag, a, b string) bool {
+			switch tag {
+			case "b", "lb", "ub", "rl", "rc", "rg", "ae", "mK", "bv", "al":
+				return isLocal(a)
+			}
+			return false
+		})
+		if k := st.Key(); !seen[k] {
+			seen[k] = true
+			out = append(out, st)
+		}
+	}
+	return out
 }
 
 // bindVar assigns variable v (of a reflect type) the entity of rhs.
@@ -282,28 +506,127 @@ func (ri *RInterp) appendFact(pre, s S, lhs, rhs ast.Expr, ents map[ast.Expr]str
 	return s.Set("ae:"+VarID(lv), cur)
 }
 
-func (ri *RInterp) node(n ast.Node, s S) S {
+// node interprets one CFG node; inlined callees and boolean definitions fork
+// the state.
+func (ri *RInterp) node(n ast.Node, s S) []S {
 	if RDebug != "" && RDebug == ri.F.Name {
 		rDebugN++
 		if rDebugN > rDebugSkip && rDebugN < rDebugSkip+400 {
 			println(ri.at(n), s.Key())
 		}
 	}
-	ents := map[ast.Expr]string{}
+	// b := <condition>  is  if <condition> { b = true } else { b = false }
+	if as, ok := n.(*ast.AssignStmt); ok && len(as.Lhs) == 1 && len(as.Rhs) == 1 && (as.Tok == token.ASSIGN || as.Tok == token.DEFINE) {
+		if lv := ri.localVar(as.Lhs[0]); lv != nil {
+			if bt, ok := lv.Type().Underlying().(*types.Basic); ok && bt.Info()&types.IsBoolean != 0 {
+				var out []S
+				for _, r := range ri.evalCond(as.Rhs[0], s) {
+					st := ri.killTerm(r.s, VarID(lv))
+					if r.v {
+						st = st.Set("bv:"+VarID(lv), "T")
+					} else {
+						st = st.Set("bv:"+VarID(lv), "F")
+					}
+					out = append(out, st)
+				}
+				return out
+			}
+		}
+	}
+	var out []S
+	switch n.(type) {
+	case *ast.AssignStmt, *ast.ValueSpec, *ast.ReturnStmt:
+		for _, st := range ri.execAll(n, s, map[ast.Expr]string{}) {
+			out = append(out, ri.node1(n, st.s, st.ents))
+		}
+	case *ast.IncDecStmt, *ast.Ident:
+		out = append(out, ri.node1(n, s, map[ast.Expr]string{}))
+	default:
+		for _, st := range ri.execAll(n, s, map[ast.Expr]string{}) {
+			out = append(out, st.s)
+		}
+	}
+	return out
+}
+
+// node1 applies the effect of a statement whose calls have been executed.
+func (ri *RInterp) node1(n ast.Node, s S, ents map[ast.Expr]string) S {
 	info := ri.info()
 	switch y := n.(type) {
+	case *ast.ReturnStmt:
+		// remember what is returned (read by the inlining caller)
+		pre := fmt.Sprintf("rv%d#", ri.depth)
+		put := func(i int, t types.Type, e ast.Expr, v *types.Var) {
+			switch {
+			case RType(t) != "":
+				ent := ""
+				if e != nil {
+					if cl, ok := ast.Unparen(e).(*ast.CompositeLit); ok && len(cl.Elts) == 0 && RType(t) == "Value" {
+						ent = "zv@" + ri.at(cl)
+					} else {
+						ent = ri.entOf(e, s, ents)
+					}
+				} else {
+					ent = ri.entOf(ast.NewIdent(v.Name()), s, ents)
+					if b := s.Get("b:" + VarID(v)); b != "" {
+						ent = b
+					} else {
+						ent = "z:" + VarID(v)
+					}
+				}
+				s = s.Set(pre+strconv.Itoa(i), ent)
+			case rIsInt(t):
+				var b IBound
+				if e != nil {
+					b = ri.bounds(e, s, ents)
+				} else {
+					b = ri.termFacts(VarID(v), s)
+				}
+				s = ri.store(s, pre+strconv.Itoa(i), b)
+			}
+		}
+		if len(y.Results) > 0 {
+			for i, e := range y.Results {
+				if t := info.TypeOf(e); t != nil {
+					if _, isTuple := t.(*types.Tuple); !isTuple {
+						put(i, t, e, nil)
+					}
+				}
+			}
+		} else if ri.F.Type.Results != nil {
+			i := 0
+			for _, fl := range ri.F.Type.Results.List {
+				for _, nm := range fl.Names {
+					if v, ok := info.Defs[nm].(*types.Var); ok {
+						put(i, v.Type(), nil, v)
+					}
+					i++
+				}
+			}
+		}
 	case *ast.AssignStmt:
-		s = ri.execAll(n, s, ents)
 		switch {
 		case len(y.Rhs) == 1 && len(y.Lhs) > 1:
 			call, _ := ast.Unparen(y.Rhs[0]).(*ast.CallExpr)
 			for i, l := range y.Lhs {
 				var rhs ast.Expr
 				if call != nil {
-					if e, ok := ents[rTupleKey{call, i}.expr()]; ok {
+					e, ok := ents[rTupleKey{call, i}.expr()]
+					if !ok {
+						if v := s.Get(fmt.Sprintf("re:%s#%d", ri.at(call), i)); v != "" {
+							e, ok = v, true
+						}
+					}
+					if ok {
 						if lv := ri.localVar(l); lv != nil && RType(lv.Type()) != "" {
 							s = ri.killTerm(s, VarID(lv))
 							s = s.Set("b:"+VarID(lv), e)
+							continue
+						}
+					}
+					if lv := ri.localVar(l); lv != nil && rIsInt(lv.Type()) {
+						if t := fmt.Sprintf("ret@%s#%d", ri.at(call), i); rHasTerm(s, t) {
+							s = ri.store(s, VarID(lv), ri.termFacts(t, s))
 							continue
 						}
 					}
@@ -350,7 +673,6 @@ func (ri *RInterp) node(n ast.Node, s S) S {
 			s = ri.incInt(s, y.X, -1)
 		}
 	case *ast.ValueSpec:
-		s = ri.execAll(n, s, ents)
 		for i, nm := range y.Names {
 			v, _ := info.Defs[nm].(*types.Var)
 			if v == nil {
@@ -364,7 +686,7 @@ func (ri *RInterp) node(n ast.Node, s S) S {
 				s = s.Set("b:"+VarID(v), "z:"+VarID(v))
 			case len(y.Values) == 0:
 				s = ri.killTerm(s, VarID(v))
-				if b, ok := v.Type().Underlying().(*types.Basic); ok && b.Info()&types.IsInteger != 0 && ri.localVar(nm) != nil {
+				if rIsInt(v.Type()) && ri.localVar(nm) != nil {
 					s = rSetInt(rSetInt(s, "lb:"+VarID(v), 0), "ub:"+VarID(v), 0)
 				}
 			default:
@@ -378,10 +700,25 @@ func (ri *RInterp) node(n ast.Node, s S) S {
 				s = ri.killTerm(s, VarID(v))
 			}
 		}
-	default:
-		s = ri.execAll(n, s, ents)
 	}
 	return s
+}
+
+func rIsInt(t types.Type) bool {
+	b, ok := t.Underlying().(*types.Basic)
+	return ok && b.Info()&types.IsInteger != 0
+}
+
+// rHasTerm reports whether any integer fact about term t is present.
+func rHasTerm(s S, t string) bool {
+	for _, k := range s.Keys() {
+		for _, tag := range []string{"lb:", "ub:", "rl:", "rc:", "rg:"} {
+			if strings.HasPrefix(k, tag+t) {
+				return true
+			}
+		}
+	}
+	return false
 }
 
 // cond evaluates a condition, executing its calls in short-circuit order and
@@ -427,9 +764,11 @@ func (ri *RInterp) evalCond(e ast.Expr, s S) []rSV {
 		}
 	}
 	// leaf
-	ents := map[ast.Expr]string{}
-	s = ri.execAll(e, s, ents)
-	return ri.leaf(e, s, ents)
+	var out []rSV
+	for _, st := range ri.execAll(e, s, map[ast.Expr]string{}) {
+		out = append(out, ri.leaf(e, st.s, st.ents)...)
+	}
+	return out
 }
 
 // ConstBool returns the constant boolean value of e.
@@ -481,6 +820,15 @@ func (ri *RInterp) kindSplit(s S, X string, k reflect.Kind) (eq, ne *S) {
 func (ri *RInterp) leaf(e ast.Expr, s S, ents map[ast.Expr]string) []rSV {
 	info := ri.info()
 	switch x := e.(type) {
+	case *ast.Ident:
+		if v := ri.localVar(x); v != nil {
+			switch s.Get("bv:" + VarID(v)) {
+			case "T":
+				return []rSV{{s, true}}
+			case "F":
+				return []rSV{{s, false}}
+			}
+		}
 	case *ast.BinaryExpr:
 		a, b, op := x.X, x.Y, x.Op
 		// kind comparison
